@@ -75,6 +75,10 @@ def region_values(smp, gene):
     return {(gi, reg): smp.coverage.region_coverage(gi, reg) for gi, g in enumerate(gene.regions) for reg in g}
 
 
+class AldyCrash(Exception):
+    pass
+
+
 class ThirdParty(Exception):
     pass
 
@@ -137,7 +141,7 @@ def tie(ctx):
                         if "indelpost" in "".join(traceback.format_tb(e.__traceback__)):
                             # the third-party realigner gives up on this random read set (e.g. ZeroDivisionError in its contig QC)
                             raise ThirdParty(f"{type(e).__name__} inside indelpost")
-                        raise
+                        raise AldyCrash(f"{type(e).__name__}: {e} (in {traceback.extract_tb(e.__traceback__)[-1].name})")
 
                 # (1) self profile
                 vals, err = run(base, "self")
@@ -193,6 +197,11 @@ def tie(ctx):
                 distinct.add(lib.canon_hash([y, cnr.start, cnr.end]))
                 if len(samples) < 2 and vals is not None:
                     samples.append({"clean": clean, "cn_region": [cnr.start, cnr.end], "self_profile_values": {f"{a_}:{b_}": v for (a_, b_), v in list(vals.items())[:6]}, "k": kk})
+            except AldyCrash as e:
+                # normalising a sample / loading a profile must end in a result or an AldyException, never in a crash
+                del reqs[n_req:], metas[n_meta:], violations[n_viol:]
+                violations.append({"why": f"loading / normalising the sample raised {e}", "input": {"gene_yaml": y, "genome": genome, "cn_region": [cnr.start, cnr.end]}, "signature": "c07:crash"})
+                continue
             except ThirdParty as e:
                 del reqs[n_req:], metas[n_meta:], violations[n_viol:]
                 stats["read_sets_skipped_third_party_crash"] += 1
